@@ -32,6 +32,8 @@ theorem q_ready_pop (n sa now : Int) : Gen.Reply.q_ready_pop n sa now = true ↔
   simp [Gen.Reply.q_ready_pop]
 theorem q_ready_rearm_delay (sa now : Int) : now + Gen.Reply.q_ready_rearm_delay sa now = sa := by
   simp only [Gen.Reply.q_ready_rearm_delay]; omega
+/-- `async_remove_answers` keeps exactly the answers that are not withdrawn -/
+theorem q_remove_keep (b : Bool) : Gen.Reply.q_remove_keep b = !b := rfl
 
 /-! ### classification -/
 theorem in_last_second (none : Bool) (now created : Int) :
